@@ -31,6 +31,10 @@ func (self ValueList) Display() (string, *Interrupt) {
 }
 
 func (self ValueList) IsEqual(other Value) (bool, *Interrupt) {
+	// values of different kinds are never equal (mixed kinds occur inside any-objects)
+	if other.Kind() != self.Kind() {
+		return false, nil
+	}
 	otherList := other.(ValueList)
 	// check length
 	if len(*otherList.Values) != len(*self.Values) {
